@@ -28,7 +28,7 @@ RULE = ('each run = K in {2,3,4} actor threads, each with 1..4 seeded public-API
 ASSUMPTIONS = [
     'pre-emption at source-line granularity (PEP 669 LINE events) in every hl7apy function; C code is atomic',
     'every run executes in a fresh fork of a process that imported and instrumented hl7apy but never called it, and in half of the runs the concurrent phase precedes the sequential reference pass, so first-call / lazy-cache races are met cold',
-    'version modules are imported before the run: two threads racing the first import of a version module is protected by the import lock, not explored',
+    'racing first imports of a version library are explored in the cold-import sweep blocks only (the library is forgotten, its module-level lines become switch points, CPython\'s per-module import lock is made baton-aware); elsewhere version modules are imported before the run',
     'the wall clock is frozen (MSH-7 is a constant), so "the same call run alone" is well defined',
     'global-state digest covers defaults, delimiter dicts, BASE_DATATYPES maps, class-level child_classes/cls_attrs; the structure tables are checked for identity, not content',
 ]
@@ -43,6 +43,7 @@ COMPONENTS = {
 def required_probes(tier):
     return ['switch_in_datatype_factory', 'two_actors_in_same_function', 'switch_in_load_library',
             'versions_overlap', 'strict_and_tolerant_overlap', 'cold_process_run', 'enumerated_switch_landed',
+            'switch_inside_module_import', 'thread_waited_for_import_lock',
             'concurrent_phase_before_reference_pass']
 
 
@@ -78,8 +79,28 @@ def generate_sweep(idx):
     return {'world': 'threads', 'seed': block, 'cfg': cfg, 'actors': actors}
 
 
+def generate_import_sweep(idx):
+    """Like generate_sweep, but the version library the actors share has been forgotten: its first use
+    imports it again, and the enumerated switch points are the lines of the library's module-level code
+    (plus the state-owning functions), i.e. *inside* the import."""
+    block = idx // SWEEP_G
+    rng = K.derive_rng('%s:C19-import:%d' % (BASE_SEED, block), 'program')
+    shared = rng.choice(corpus.T.VERSIONS)
+    n = rng.choice([2, 2, 3])
+    actors = []
+    for a in range(n):
+        tok = gen.Tokens(start=a * 100000 + block * 100, prefix='abcd'[a])
+        actors.append([corpus.gen_call(rng, tok, cid='abcd'[a], kinds=['factory', 'factory', 'parse_field', 'segment_build', 'component_add_sub'],
+                                       invalid_p=0.0, version=shared)])
+    cfg = {'mean_budget': None, 'touch_p': 0, 'order': 'threads_first', 'sweep_at': idx % SWEEP_G, 'cold_import': [shared]}
+    return {'world': 'threads', 'seed': block, 'cfg': cfg, 'actors': actors}
+
+
 def generate(seed, idx, tier):
-    if (idx // SWEEP_G) % 3 != 2:
+    b = (idx // SWEEP_G) % 6
+    if b == 4:
+        return generate_import_sweep(idx)
+    if b % 3 != 2:
         return generate_sweep(idx)
     rng = K.derive_rng(seed, 'program')
     n = rng.choice([2, 2, 3, 3, 4])
@@ -111,6 +132,12 @@ def _execute(case):
         probes['sweep_run'] = 1
         if k.sweep_hit is not None:
             probes['enumerated_switch_landed'] = 1
+    if case['cfg'].get('cold_import'):
+        probes['cold_import_run'] = 1
+        if k.sweep_hit is not None and k.sweep_hit[0] == '<module>':
+            probes['switch_inside_module_import'] = 1
+        if k.import_waits:
+            probes['thread_waited_for_import_lock'] = k.import_waits
     if case['cfg'].get('order') == 'threads_first':
         probes['concurrent_phase_before_reference_pass'] = 1
     if k.lib_switches:
@@ -122,11 +149,16 @@ def _execute(case):
     sample = {'actors': [[corpus.brief(c) for c in prog] for prog in case['actors']],
               'cfg': case['cfg'], 'context_switches_in_library': k.lib_switches, 'line_events': k.lines}
     return {
-        'violations': w.violations, 'digest': k.digest(), 'probes': probes, 'faults': faults,
+        'violations': w.violations, 'digest': _dg(k), 'probes': probes, 'faults': faults,
         'nontrivial': k.live_switches > 0, 'ilv': k.switch_trace.hexdigest(), 'sim_us': 0, 'lines': k.lines,
         'schedule': k.recorded, 'fault_plan': [], 'sample': sample, 'states': [],
         'ops': sum(len(p) for p in case['actors']),
     }
+
+
+def _dg(k):
+    import hashlib
+    return hashlib.sha1((k.digest() + k.switch_trace.hexdigest()).encode()).hexdigest()
 
 
 def with_recording(case, res):
